@@ -247,6 +247,13 @@ def _truth_key(k, facts):
                     return False
             return None
         return None
+    if tag == "call" and k[1][0] == "attr" and not k[2] and not k[3]:
+        # str predicates on a value known to be empty
+        m = k[1][2]
+        if m in ("isascii", "isprintable") and truth(k[1][1], facts) is False:
+            return True
+        if m in ("isdigit", "isalpha", "isalnum", "isupper", "islower", "isspace") and truth(k[1][1], facts) is False:
+            return False
     # truthiness of an arbitrary term
     st = _struct_truth(k, facts)
     if st is not None:
@@ -394,7 +401,8 @@ class Result:
 
 
 class Analyzer:
-    def __init__(self, model: Model, fi: FuncInfo, bindings: dict | None = None, trace=None):
+    def __init__(self, model: Model, fi: FuncInfo, bindings: dict | None = None, trace=None, merge=True):
+        self.merge = merge      # False: states are merged only when identical (full path-sensitivity; small functions)
         self.trace = trace      # predicate(kind, term) -> bool: which calls/stores are appended to State.trace
         self.model = model
         self.fi = fi
@@ -406,8 +414,8 @@ class Analyzer:
         self._global_names = set()
 
     # -- entry ---------------------------------------------------------------
-    def run(self) -> Result:
-        s = State()
+    def run(self, init: State | None = None) -> Result:
+        s = init.copy() if init is not None else State()
         for p in self.fi.params:
             s.env[p] = self.bindings.get(p, ("param", p))
         for n in ast.walk(self.fi.node):
@@ -435,6 +443,8 @@ class Analyzer:
         groups = {}
         for s in states:
             k = (frozenset(s.env.items()), frozenset(s.heap.items()), s.ctx, s.trace)
+            if not self.merge:
+                k = k + (frozenset(s.facts.items()),)
             g = groups.get(k)
             if g is None:
                 groups[k] = s
@@ -1081,10 +1091,30 @@ def _immutable_recv(t):
 _CACHE: dict = {}
 
 
-def analyze(model: Model, fi: FuncInfo, bindings: dict | None = None, trace=None, trace_key=None) -> Result:
-    key = (id(model), fi.qual, fi.backend, tuple(sorted((bindings or {}).items())), trace_key)
+def analyze(model: Model, fi: FuncInfo, bindings: dict | None = None, trace=None, trace_key=None, merge=True) -> Result:
+    key = (id(model), fi.qual, fi.backend, tuple(sorted((bindings or {}).items())), trace_key, merge)
     if trace is not None and trace_key is None:
-        return Analyzer(model, fi, bindings, trace).run()
+        return Analyzer(model, fi, bindings, trace, merge).run()
     if key not in _CACHE:
-        _CACHE[key] = Analyzer(model, fi, bindings, trace).run()
+        _CACHE[key] = Analyzer(model, fi, bindings, trace, merge).run()
     return _CACHE[key]
+
+
+_PRECISE_CAP = 1500
+
+
+def analyze_precise(model: Model, fi: FuncInfo) -> Result:
+    """Full path-sensitivity (no fact-intersection merging) when the function is small enough, else the merged analysis."""
+    key = (id(model), fi.qual, fi.backend, "precise")
+    if key not in _CACHE:
+        global MAX_STATES
+        saved = MAX_STATES
+        MAX_STATES = _PRECISE_CAP
+        try:
+            _CACHE[key] = Analyzer(model, fi, None, None, False).run()
+        except AnalysisError:
+            _CACHE[key] = None
+        finally:
+            MAX_STATES = saved
+    r = _CACHE[key]
+    return r if r is not None else analyze(model, fi)
